@@ -1,6 +1,6 @@
 PROP = {
-    "modules": ["Discv5Model.Props.C11"],
-    "lemma_modules": ["Discv5Model.Proofs.ServiceNodes"],
+    "modules": ["Discv5Model.Props.C11", "Discv5Model.Props.C11Ban"],
+    "lemma_modules": ["Discv5Model.Proofs.ServiceNodes", "Discv5Model.Proofs.ServiceBan"],
     "engines": [{"name": "service", "quick": 150, "thorough": 15000}],
     "rule": "service engine, profile C11: requester A and honest responder B (a second real Service in the same process, "
             "table mined to hold records at distances 249..256 from it, some padded to ~300 bytes so answers span several "
@@ -18,6 +18,7 @@ PROP = {
     "engine": "service",
     "design_ref": "DESIGN.md section 5 / C11",
     "technique": "Lean 4 theorems over an executable model of handle_rpc_response / send_nodes_response + differential correspondence run through the real Service with a scripted handler and a second real node as honest responder",
-    "level_text": "Proof: acceptNodes keeps exactly the records whose log2 distance from the responder is requested (own record = distance 0) and bans iff something else was sent (accept_exact, off_distance_banned, enr_request_many_banned); for every target, requester, distance list, max_nodes_response and every responder table satisfying the C07 invariant with records filed under their own ids (stored and pending), every packet of sendNodesResponse is accepted in full and does not ban (honest_never_banned, also for the generated lists [d,d+1,d-1] and [0]); at most 15 packets are collected per request for any claimed total, and packets after completion are ignored (packets_bounded, after_completion_ignored, completion_removes). Tied to /repo by the service differential run with a second real service as honest responder, malicious answers, totals up to 2^64-1, and ban-list monitors.",
+    "level_text": "Proof: acceptNodes keeps exactly the records whose log2 distance from the responder is requested (own record = distance 0) and bans iff something else was sent (accept_exact, off_distance_banned, enr_request_many_banned); for every target, requester, distance list, max_nodes_response and every responder table satisfying the C07 invariant with records filed under their own ids (stored and pending), every packet of sendNodesResponse is accepted in full and does not ban (honest_never_banned, also for the generated lists [d,d+1,d-1] and [0]); at most 15 packets are collected per request for any claimed total, and packets after completion are ignored (packets_bounded, after_completion_ignored, completion_removes). Tied to /repo by the service differential run with a second real service as honest responder, malicious answers, totals up to 2^64-1, and ban-list monitors."
+                  ' Also (Props/C11Ban.lean): a ban is issued only by a NODES response to an active FINDNODE request, names exactly the node id and socket that response came from - never an address taken from a record - at most once per response, and exactly under the stated condition (ban_iff, ban_has_cause_at, silent_never_banned).',
     "level_note": "Trusted: Lean kernel, extract.py, harness/driver. The tie model<->code is a sampled differential check of the real Service behind a scripted handler (Discv5::start_scripted). Records are abstract (id, seq, sockets, size, filter verdict); record validity is the enr crate's. Queries are not modelled: which peers a lookup contacts is taken from the run (resolved scripts), the requested distance lists are compared with the model's requestDistances.",
 }
